@@ -153,6 +153,35 @@ fn observe_start_once(w: &Written, src: Source, n: usize, hport: Option<u16>, fa
     let reporter_thread = names.iter().any(|x| x.starts_with("stats-reporting"));
     let lt_pk = crypto::public_key(&crypto::unhex(BASE_SEED_HEX).try_into().unwrap());
     let (keys, _sent, bad) = if exited.is_none() { probe_workers(sp.port, &lt_pk, n, 48 * n + 32, fault) } else { (BTreeMap::new(), 0, 0) };
+    // a burst of requests sent back-to-back before any reply is read (every worker's socket holds a
+    // queue when it wakes), then every worker must still be alive and serving
+    let bsz: usize = w.get("batch_size").and_then(|b| b.parse().ok()).unwrap_or(64);
+    let (keys, bad) = if exited.is_none() && !keys.is_empty() && bsz <= 2 {
+        // each socket's datagrams all reach one worker (SO_REUSEPORT hashes the source port): 16*b+8
+        // requests from one socket queue up on that worker faster than it drains them
+        let addr: std::net::SocketAddr = format!("127.0.0.1:{}", sp.port).parse().unwrap();
+        let socks: Vec<std::net::UdpSocket> = (0..4).map(|_| std::net::UdpSocket::bind("127.0.0.1:0").unwrap()).collect();
+        for (si, s) in socks.iter().enumerate() {
+            for k in 0..(16 * bsz + 8) {
+                let v = if (k + si) % 2 == 0 { rtref::Version::Classic } else { rtref::Version::Ietf13 };
+                let req = rtref::responder::std_request(v, &nonce(0xb0057 + (si * 1000 + k) as u64, v.nonce_len()));
+                let _ = s.send_to(&req, addr);
+            }
+        }
+        std::thread::sleep(Duration::from_millis(80));
+        drop(socks);
+        if sp.try_status().is_some() {
+            (BTreeMap::new(), bad)
+        } else {
+            let (k2, _s2, b2) = probe_workers(sp.port, &lt_pk, n, 48 * n + 32, fault);
+            (k2, bad + b2)
+        }
+    } else {
+        (keys, bad)
+    };
+    let exited = sp.try_status();
+    let names = sp.thread_names();
+    let live_workers: BTreeSet<String> = names.iter().filter(|x| x.starts_with("worker-")).cloned().collect();
     let health = if exited.is_none() { hport.map(|p| health_probe(p, Duration::from_secs(2))) } else { None };
     let se = sp.stderr();
     let obs = StartObs {
@@ -446,7 +475,7 @@ pub fn run(ctx: &Ctx) -> Result<(), String> {
     ctx.cov("exhaustive", json!(sched.caps_hit.is_empty()));
     ctx.cov("caps_hit", json!(sched.caps_hit));
     ctx.cov("bound", json!({"configuration_space": ctx.tier.pick("all-pairs covering array of the 4608-point product", "full 4608-point product"), "health_history_len": ctx.tier.pick(5, 6)}));
-    ctx.cov("rule", json!("(1) real server binary started on every point of the documented option space (num_workers 1..=16 x health_check_port absent/present x batch_size {1,2,63,64} x fault_percentage {0,1,50} x status_interval {1,10,600} x client_stats off/on+directory x file/ENV; quick: greedy all-pairs covering array; thorough: full product) and on the repository's example.cfg: process alive, thread names worker-0..N-1 (+stats-reporting iff client_stats), N distinct delegated keys answer authentic replies on the UDP port, the health port answers the fixed HTTP 200 bytes, no panic text; (2) start-up schedules under the controlled scheduler (see startup_schedules); (3) all sequences of length <= L over {connect_tcp, send(valid request), step} on a real in-process Server with the health port on, driven to quiescence: every accepted TCP connection received exactly the fixed response and was closed, every UDP request answered; plus bursts of k connections (quick k in {2,..,100}, thorough every k 2..=130) pending before one step, alone, mixed with requests, and twice."));
+    ctx.cov("rule", json!("(1) real server binary started on every point of the documented option space (num_workers 1..=16 x health_check_port absent/present x batch_size {1,2,63,64} x fault_percentage {0,1,50} x status_interval {1,10,600} x client_stats off/on+directory x file/ENV; quick: greedy all-pairs covering array; thorough: full product) and on the repository's example.cfg: process alive, thread names worker-0..N-1 (+stats-reporting iff client_stats), N distinct delegated keys answer authentic replies on the UDP port — before and, for batch_size <= 2, after bursts of 16*batch_size+8 requests from each of 4 sockets (each socket's traffic lands on one worker) —, the health port answers the fixed HTTP 200 bytes, no panic text; (2) start-up schedules under the controlled scheduler (see startup_schedules); (3) all sequences of length <= L over {connect_tcp, send(valid request), step} on a real in-process Server with the health port on, driven to quiescence: every accepted TCP connection received exactly the fixed response and was closed, every UDP request answered; plus bursts of k connections (quick k in {2,..,100}, thorough every k 2..=130) pending before one step, alone, mixed with requests, and twice."));
     ctx.sample(json!({"kind":"start","point":{"num_workers":16,"health_check_port":true,"batch_size":63,"fault_percentage":1,"status_interval":10,"client_stats":true,"source":"ENV"}}));
     ctx.sample(json!({"kind":"health-history","events":["Connect","Connect","Send","Step"]}));
     ctx.assume("SO_REUSEPORT spreads 48*N+32 client sockets over all N workers (probability of missing a live worker < 1e-15)");
